@@ -100,6 +100,12 @@ impl CodeCache {
     )
   }
 
+  /// Tell the cache which ROM bank is currently mapped at 0x4000 - 0x7fff, so
+  /// that blocks translated from one bank are never reused for another.
+  pub fn set_rom_bank(&mut self, bank: usize) {
+    self.code_blocks.set_rom_bank(bank as u16);
+  }
+
   pub fn get_address_for_ip(&self, ip: usize) -> Option<usize> {
     let gb_ip = ip as u16;
     self.code_blocks
